@@ -4,6 +4,10 @@ import json, os
 ROOT = os.path.dirname(os.path.dirname(os.path.abspath(__file__)))
 TRUST = "TLC 1.8 and the CommunityModules Json/IOUtils; the Rust harness (vh) that drives the public API of /repo's crates; rustc/cargo"
 CHECKS = {
+ "C12": ("DESIGN.md section 6 C12",
+         "Handles.tla (handle id -> vector / map / set; one Eff arm per command; released / never-issued / wrong-kind handles yield false and change nothing) - complete reachable state graph under size bounds with invariants; per-transition replay on the real SDK in which every collection ever created is re-read through the public commands after every step and the whole table is compared, with a real<->abstract handle bijection checked for injectivity; random long histories validated step by step by TLC.",
+         "complete state graph over a small universe (quick replays a rotating tenth of the transitions of every state); sampled histories beyond",
+         "TLA+ spec + TLC exhaustive state graph; per-transition spec->impl replay; impl->spec trace validation"),
  "C18": ("DESIGN.md section 6 C18",
          "FileTree.tla (path -> absent / dir / file(content) over a 6-path universe with explicit parent table; one Eff arm per command) evaluated on every consistent tree x every operation with sanity theorems (well-formed results, failing operations are no-ops, mv = cp ; rm); each of the ~23 000 cases is materialised in a fresh directory, the real command is run and the directory walked back and compared in full together with the output; random histories are validated step by step by TLC.",
          "exhaustive over the small universe (single operations from every tree), sampled histories; permissions/symlinks/directory sources out of domain",
